@@ -323,13 +323,21 @@ func (s *Server) followStep(host string, port int, followc int) error {
 		return err
 	}
 
+	// The caught-up flag belongs to the server, not to this follow generation:
+	// a FOLLOW to another leader may have been accepted during the round trips
+	// above. Only the current generation may report on it.
 	s.mu.Lock()
+	if int(s.followc.Load()) != followc {
+		s.mu.Unlock()
+		return errNoLongerFollowing
+	}
 	s.faofsz = int(aofSize)
-	s.mu.Unlock()
-
 	caughtUp := pos >= aofSize
 	if caughtUp {
 		s.setCaughtUp(true)
+	}
+	s.mu.Unlock()
+	if caughtUp {
 		log.Info("caught up")
 	}
 
@@ -359,6 +367,10 @@ func (s *Server) followStep(host string, port int, followc int) error {
 			return err
 		}
 		s.mu.Lock()
+		if int(s.followc.Load()) != followc {
+			s.mu.Unlock()
+			return errNoLongerFollowing
+		}
 		s.faofsz = aofsz
 		s.mu.Unlock()
 		if len(svals) == 0 || strings.ToLower(svals[0]) != "publish" {
@@ -370,6 +382,10 @@ func (s *Server) followStep(host string, port int, followc int) error {
 			if lpos >= aofSize {
 				caughtUp = true
 				s.mu.Lock()
+				if int(s.followc.Load()) != followc {
+					s.mu.Unlock()
+					return errNoLongerFollowing
+				}
 				s.flushAOF(false)
 				s.setCaughtUp(true)
 				s.mu.Unlock()
